@@ -527,25 +527,48 @@ theorem prof_selector_exact (re : Bytes → Bytes → Bool) (table : String) (fr
     `type_id` is `name:period_type:period_unit` (ctrl/qryn/sql/profiles.sql), `sample_types_units` the list of
     (sample type, sample unit); `__profile_type__` is Pyroscope's `name:sample_type:sample_unit:period_type:period_unit`.
     (Pins the field each case of the `switch selector.Name` applies its matcher to: `Gen.ProfSelect.pseudoLabels`.) -/
-theorem prof_pseudo_label_meaning (re : Bytes → Bytes → Bool) (op : Prof.Op) (v : Bytes) (r : PRow) :
-    (selHolds re ⟨[95, 95, 110, 97, 109, 101, 95, 95], op, v⟩ r = opHoldsP re op (typePart r 1) v) ∧
-    (selHolds re ⟨[95, 95, 112, 101, 114, 105, 111, 100, 95, 116, 121, 112, 101, 95, 95], op, v⟩ r = opHoldsP re op (typePart r 2) v) ∧
-    (selHolds re ⟨[95, 95, 112, 101, 114, 105, 111, 100, 95, 117, 110, 105, 116, 95, 95], op, v⟩ r = opHoldsP re op (typePart r 3) v) ∧
-    (selHolds re ⟨[95, 95, 115, 97, 109, 112, 108, 101, 95, 116, 121, 112, 101, 95, 95], op, v⟩ r = r.stu.any (fun x => opHoldsP re op x.1 v)) ∧
-    (selHolds re ⟨[95, 95, 115, 97, 109, 112, 108, 101, 95, 117, 110, 105, 116, 95, 95], op, v⟩ r = r.stu.any (fun x => opHoldsP re op x.2 v)) ∧
-    (selHolds re ⟨[95, 95, 112, 114, 111, 102, 105, 108, 101, 95, 116, 121, 112, 101, 95, 95], op, v⟩ r = r.stu.any (fun x => opHoldsP re op (typePart r 1 ++ [58] ++ x.1 ++ [58] ++ x.2 ++ [58] ++ typePart r 2 ++ [58] ++ typePart r 3) v)) ∧
-    (selHolds re ⟨[115, 101, 114, 118, 105, 99, 101, 95, 110, 97, 109, 101], op, v⟩ r = opHoldsP re op r.serviceName v) := by
+theorem prof_pseudo_label_meaning (re : Bytes → Bytes → Bool) (op : Prof.Op) (v0 : Bytes) (r : PRow) :
+    let v := selVal ⟨[], op, v0⟩
+    (selHolds re ⟨[95, 95, 110, 97, 109, 101, 95, 95], op, v0⟩ r = opHoldsP re op (typePart r 1) v) ∧
+    (selHolds re ⟨[95, 95, 112, 101, 114, 105, 111, 100, 95, 116, 121, 112, 101, 95, 95], op, v0⟩ r = opHoldsP re op (typePart r 2) v) ∧
+    (selHolds re ⟨[95, 95, 112, 101, 114, 105, 111, 100, 95, 117, 110, 105, 116, 95, 95], op, v0⟩ r = opHoldsP re op (typePart r 3) v) ∧
+    (selHolds re ⟨[95, 95, 115, 97, 109, 112, 108, 101, 95, 116, 121, 112, 101, 95, 95], op, v0⟩ r = r.stu.any (fun x => opHoldsP re op x.1 v)) ∧
+    (selHolds re ⟨[95, 95, 115, 97, 109, 112, 108, 101, 95, 117, 110, 105, 116, 95, 95], op, v0⟩ r = r.stu.any (fun x => opHoldsP re op x.2 v)) ∧
+    (selHolds re ⟨[95, 95, 112, 114, 111, 102, 105, 108, 101, 95, 116, 121, 112, 101, 95, 95], op, v0⟩ r = r.stu.any (fun x => opHoldsP re op (typePart r 1 ++ [58] ++ x.1 ++ [58] ++ x.2 ++ [58] ++ typePart r 2 ++ [58] ++ typePart r 3) v)) ∧
+    (selHolds re ⟨[115, 101, 114, 118, 105, 99, 101, 95, 110, 97, 109, 101], op, v0⟩ r = opHoldsP re op r.serviceName v) := by
+  intro v
   refine ⟨?_, ?_, ?_, ?_, ?_, ?_, ?_⟩ <;>
-    simp [selHolds, pseudoOf, nameStr, Gen.ProfSelect.pseudoLabels, List.lookup, fieldSem]
+    simp [v, selVal, selHolds, pseudoOf, nameStr, Gen.ProfSelect.pseudoLabels, List.lookup, fieldSem]
 
 /-- any other name is a key/value selector: the row's key is the name and its value satisfies the operator -/
 theorem prof_key_value_meaning (re : Bytes → Bytes → Bool) (s : Selector) (h : isGlobal s = false) (r : PRow) :
-    selHolds re s r = (r.key == s.name && opHoldsP re s.op r.val s.val) := by
+    selHolds re s r = (r.key == s.name && opHoldsP re s.op r.val (selVal s)) := by
   have : pseudoOf s.name = none := by
     cases hp : pseudoOf s.name with
     | none => rfl
     | some p => simp [isGlobal, hp] at h
   simp [selHolds, this]
+
+/-- **prof_regex_anchored.** The value a selector is compared with (`selVal`, used by the two theorems above): for `=`
+    and `!=` the selector's value, for `=~` and `!~` the pattern wrapped as `^(?:` … `)$` — with ClickHouse `match`
+    a search, the regular expression has to match the whole value, as Pyroscope's (Prometheus') label matchers do
+    (after `fix: Pyroscope selector regular expressions …`; `Gen.ProfSelect.anchoredOps`). -/
+theorem prof_regex_anchored (n v : Bytes) :
+    selVal ⟨n, .eq, v⟩ = v ∧ selVal ⟨n, .ne, v⟩ = v ∧
+    selVal ⟨n, .re, v⟩ = [94, 40, 63, 58] ++ v ++ [41, 36] ∧ selVal ⟨n, .nre, v⟩ = [94, 40, 63, 58] ++ v ++ [41, 36] := by
+  refine ⟨?_, ?_, ?_, ?_⟩ <;>
+    simp [selVal, Prof.Op.str, Gen.ProfSelect.anchoredOps, Gen.ProfSelect.valuePrefix, Gen.ProfSelect.valueSuffix,
+      Prom.ascii] <;> decide
+
+/-- **prof_matcher_on_absent_label_counterexample.** `{region!="x"}` over the one profile series with the only label
+    `env="p"` (fingerprint 5, inside the date range): Pyroscope selects it (no `region` label, "" ≠ "x"); the
+    query does not — there is no index row with key `region` (`prof_selector_exact`, clause (ii)). Kernel-checked.
+    The recorded finding `C17/prof-matcher-on-absent-label`. (region = [114,101,103,105,111,110], env = [101,110,118].) -/
+theorem prof_matcher_on_absent_label_counterexample :
+    (plan "t" [49] [51] [⟨[114, 101, 103, 105, 111, 110], .ne, [120]⟩]).map (fun q =>
+      q.eval (fun _ _ => false) 64 [⟨[50], [101, 110, 118], [112], [99, 112, 117], [], [], 5⟩]) = some [] ∧
+    opHoldsP (fun _ _ => false) .ne (Prom.labelValue [([101, 110, 118], [112])] [114, 101, 103, 105, 111, 110]) [120] = true := by
+  decide
 
 -- non-vacuity / a concrete run: {__name__="cpu", __sample_type__=~"s", job="a"}
 -- type_id = "cpu:p:u" = [99,112,117,58,112,58,117]
